@@ -359,10 +359,10 @@ PROPS['C14'] = dict(
     describe=c14_describe, nontrivial=c14_nontrivial, no_shrink=True,
     bucket=lambda i, o: ['shape=%d' % i[0], 'outcome=%s' % ('ok' if isinstance(o, list) and len(o) == 5 and o[2][0] == 0 else 'err')],
     classify=lambda i, o: 'shape-%d' % i[0],
-    rule='36 composition shapes covering then / and / map over tuple, array and vector / then_map / Composable::map / apply_twice / apply_n_times (0, 2, 3) / Identity / Constant / Mutate, Recombine, Select by value and by reference / GenomeExtractor, nested up to depth 4, built from probe operators that draw one word from the supplied generator, log (probe id, input seen, word) and fail on command; failure injected at every probe call 0..11 and none; 4 (quick) / 25 (thorough) word streams each. Result, error path (parsed from Debug), call log and number of words consumed are compared with the interpretation of the same shape through Compose.v in coqc. Non-trivial: at least two probe calls happened.',
+    rule='40 composition shapes covering then / and / map over tuple, array and vector / then_map / Composable::map / apply_twice / apply_n_times (0, 2, 3) / Identity / Constant / Mutate, Recombine, Select by value, by reference and around boxed / borrowed type-erased operators / GenomeExtractor, nested up to depth 4, built from probe operators that draw one word from the supplied generator (odd-numbered probes by a 32-bit draw whose provenance from the supplied generator is checked, the others by a 64-bit draw), log (probe id, input seen, word) and fail on command; failure injected at every probe call 0..11 and none; 4 (quick) / 25 (thorough) word streams each. Result, error path (parsed from Debug), call log and number of words consumed are compared with the interpretation of the same shape through Compose.v in coqc. Non-trivial: at least two probe calls happened.',
     trusted=['error paths are read from the derived Debug rendering of ThenError/AndError/MapError (their fields are private)'],
     assumptions=['composition shapes are a fixed hand-written family (Rust types are static)'],
-    level_text='Theorems (Props/C14.v) for ARBITRARY component operators and any threaded state: then feeds the first result to the second; and applies both to the same input in order and pairs; map visits elements in index order and its error names the failing index with everything before it done and nothing after it run; repeat = N applications to copies; the first failing part fixes the final state (later parts neither run nor draw); identity/constant/wrappers add nothing; then is associative up to error re-nesting. Tied to the code by probe operators over an explicit word stream on 36 shapes x every failure position.',
+    level_text='Theorems (Props/C14.v) for ARBITRARY component operators and any threaded state: then feeds the first result to the second; and applies both to the same input in order and pairs; map visits elements in index order and its error names the failing index with everything before it done and nothing after it run; repeat = N applications to copies; the first failing part fixes the final state (later parts neither run nor draw); identity/constant/wrappers add nothing; then is associative up to error re-nesting. Tied to the code by probe operators over an explicit word stream on 40 shapes x every failure position.',
     level_note='Trusted: Coq kernel; harness+driver; Debug rendering of the error enums.',
     technique='Coq equational theorems over higher-order combinators (arbitrary components) + probe-operator correspondence at word level',
     design_ref='DESIGN.md §6 C14',
@@ -372,7 +372,7 @@ PROPS['C14'] = dict(
 # C17
 C17_TRAITS = ['DynSelector', 'DynMutator', 'DynRecombinator', 'DynOperator', 'DynChildMaker']
 C17_IMPLS = [['Best', 'Worst', 'Random', 'Tournament(2)', 'Tournament(5)', 'WeightedPair(Best:1, Tournament(5):1)', 'draw-then-fail selector'], ['WithRate(0.3)', 'WithOneOverLength', 'failing mutator'],
-             ['UniformXo', 'TwoPointXo', 'failing recombinator'], ['AddWord', 'AddWord.then(AddWord)', 'failing operator', 'Mutate(WithRate(0.5))'],
+             ['UniformXo', 'TwoPointXo', 'failing recombinator'], ['AddWord', 'AddWord.then(AddWord)', 'failing operator', 'Mutate(WithRate(0.5))', 'operator failing with an error that has a source'],
              ['select+word', 'two parents', 'failing child maker']]
 C17_PTR = ['&', '&mut', 'RefMut', 'Box', 'Arc', 'Rc', 'Ref']
 C17_AUTO = ['', '+Send', '+Sync', '+Send+Sync']
@@ -387,8 +387,8 @@ PROPS['C17'] = dict(
     bucket=lambda i, o: ['trait=%s' % C17_TRAITS[i[0]], 'pointer=%s' % C17_PTR[i[2] // 4], 'auto=%s' % (C17_AUTO[i[2] % 4] or 'none'),
                          'outcome=%s' % ('ok' if isinstance(o, list) and len(o) == 4 and o[0][0] == 0 else 'err')],
     classify=lambda i, o: '%s/%s' % (C17_TRAITS[i[0]], C17_PTR[i[2] // 4]),
-    rule='all five erasable traits x all 28 generated pointer flavours (7 pointer kinds x {none, Send, Sync, Send+Sync}) x 3-5 wrapped implementations each (library selectors, mutators, recombinators, composed operators, child makers, and one failing implementation per trait) x 2 (quick) / 12 (thorough) seeded inputs incl. empty populations and length-mismatched parents (error paths). The concrete call and the erased call start from clones of one generator; the selected index (pointer identity) / genome / value, the error message and the next word of each generator are compared. A flavour that stops compiling breaks the harness build (reported as broken correspondence). Every case is non-trivial.',
-    trusted=['error identity is observed as to_string() of the boxed error'],
+    rule='all five erasable traits x all 28 generated pointer flavours (7 pointer kinds x {none, Send, Sync, Send+Sync}) x 3-5 wrapped implementations each (library selectors, mutators, recombinators, composed operators, child makers, and one failing implementation per trait) x 2 (quick) / 12 (thorough) seeded inputs incl. empty populations and length-mismatched parents (error paths). The concrete call and the erased call start from clones of one generator; the selected index (pointer identity) / genome / value, the error (its message, its debug form and the messages of its whole source chain - the erased error must still be the error of the wrapped implementation, not a rendering of it) and the next word of each generator are compared; the 32-bit draws of the generator are neither half of its 64-bit draws, so an adapter deriving one from the other shows. A flavour that stops compiling breaks the harness build (reported as broken correspondence). Every case is non-trivial.',
+    trusted=['error identity is observed as message + debug form + source-chain messages of the boxed error'],
     assumptions=['thin model by design: the property says the layer adds nothing'],
     level_text='Theorems (Props/C17.v): erase into f returns the same value, the image of the same error, and leaves the threaded state (random stream) exactly as f does, for every f; pointer flavours are the identity on behaviour; erasing twice composes the conversions. Tied to the code by instantiating every generated flavour of every erasable trait around concrete implementations and comparing with the concrete call from a cloned generator.',
     level_note='Trusted: Coq kernel; harness+driver; generated instantiation code (harness/gen/gen_c17.py).',
@@ -500,10 +500,13 @@ def make_stat_post(pid, obs_code=None, hist_of=None):
             o2, valid = run_inputs(pid, new_inputs, tag='resample')
             for (i, law, cells, code_of), inp2, ob in zip(retry, new_inputs, o2):
                 hist = {}
-                if isinstance(ob, list) and (not ob or isinstance(ob[0], list)):
-                    for oc, k in (hist_of(inp2, ob) if hist_of else ob):
+                try:
+                    pairs2 = (hist_of(inp2, ob) if hist_of else ob) if isinstance(ob, list) else None
+                    for oc, k in (pairs2 or []):
                         c = code_of(inp2, oc)
                         hist[c] = hist.get(c, 0) + k
+                except (TypeError, ValueError, IndexError):
+                    hist = {}
                 imp, flagged, worst = stat_decide(law, hist)
                 still = [f for f in flagged if f[0] in cells]
                 if imp or still or not hist:
@@ -530,6 +533,12 @@ def sel_obs_code(inp, oc):
             return j
     return oc
 
+def sel_hist_of(inp, o):
+    """the histogram part of a selection observation ([-50, histogram, probe calls] when members are probed)"""
+    if isinstance(o, list) and len(o) == 3 and o[0] == -50:
+        o = o[1]
+    return o if isinstance(o, list) and all(isinstance(e, list) and len(e) == 2 for e in o) else None
+
 def sel_str(t):
     k = t[0]
     if k == 0: return 'Best'
@@ -537,6 +546,7 @@ def sel_str(t):
     if k == 2: return 'Random'
     if k == 3: return 'Tournament(%d)' % t[1]
     if k == 4: return 'Lexicase(%d)' % t[1]
+    if k == 9: return 'probe(%s)' % sel_str(t[1])
     if k == 5: return 'Weighted(%s, %d)' % (sel_str(t[2]), t[1])
     if k == 6: return 'Pair(%s, %s)' % (sel_str(t[1]), sel_str(t[2]))
     if k == 7: return 'end'
@@ -549,14 +559,17 @@ def sel_describe(inp, obs):
         sel_str(p[2]), p[1], ('scores' if p[0] % 2 else 'errors') + (', neighbouring individuals share a genome' if p[0] >= 2 else ''), inp[1], inp[0])
 
 def sel_kind(t):
-    return {0: 'best', 1: 'worst', 2: 'random', 3: 'tournament', 4: 'lexicase', 5: 'weighted', 6: 'weighted-pair', 8: 'dyn-weighted'}.get(t[0], '?')
+    return {0: 'best', 1: 'worst', 2: 'random', 3: 'tournament', 4: 'lexicase', 5: 'weighted', 6: 'weighted-pair', 8: 'dyn-weighted', 9: 'probe'}.get(t[0], '?')
 
 def sel_bucket(inp, obs):
     p = inp[2]
     out = ['selector=%s' % sel_kind(p[2]), 'pop_size=%d' % len(p[1])]
+    if isinstance(obs, list) and len(obs) == 3 and obs[0] == -50:
+        out.append('members probed')
+        obs = obs[1]
     if isinstance(obs, list):
         for o in obs:
-            if isinstance(o, list) and o and o[0] < 0:
+            if isinstance(o, list) and o and isinstance(o[0], int) and o[0] < 0:
                 out.append('error=%d' % o[0])
     return out
 
@@ -564,7 +577,7 @@ _SEL_COMMON = dict(corr='CorrSelect', judge='(judge_cases judge)', describe=sel_
                    classify=lambda i, o: 'select:%s' % sel_kind(i[2][2]), cov_extra=stat_cov_extra,
                    trusted=['rand 0.9 primitives (choose, choose_multiple, shuffle, Bernoulli::from_ratio, choose_weighted) as oracles with their documented laws',
                             'statistical tie: Bernstein threshold with delta = 1e-12 per cell, one 10x re-sample before a cell counts; support membership is exact'])
-PROPS['C06'] = dict(_SEL_COMMON, post_batch=make_stat_post('C06', sel_obs_code),
+PROPS['C06'] = dict(_SEL_COMMON, post_batch=make_stat_post('C06', sel_obs_code, sel_hist_of),
     coq_targets=['theories/Props/C06.vo', 'theories/Corr/CorrSelect.vo'],
     nontrivial=lambda i, o: len(i[2][1]) >= 1,
     rule='populations (empty, singleton, all-equal, duplicate-laden, ragged with missing cases, random; up to 8 individuals) x selector configurations (best, worst, random, tournament sizes 1..n+2, lexicase case counts 0..4 - smaller/equal/larger than the results available -, weighted trees of depth <= 2 and dynamic lists, also nested in each other, weights incl. 0) x 60 (quick) / 400 (thorough) seeded draws. Each returned reference is located in the population by pointer identity; every observed outcome (index class or documented error) must have positive probability in the model law computed in coqc, and frequencies are compared as well. Non-trivial: non-empty population.',
@@ -573,7 +586,7 @@ PROPS['C06'] = dict(_SEL_COMMON, post_batch=make_stat_post('C06', sel_obs_code),
     level_note='Trusted: Coq kernel; harness+driver; rand primitives as oracles.',
     technique='Coq induction over a deep embedding of selector combinations (support theorems) + exact support-membership correspondence with pointer identity',
     design_ref='DESIGN.md §5 C06')
-PROPS['C07'] = dict(_SEL_COMMON, post_batch=make_stat_post('C07', sel_obs_code),
+PROPS['C07'] = dict(_SEL_COMMON, post_batch=make_stat_post('C07', sel_obs_code, sel_hist_of),
     coq_targets=['theories/Props/C07.vo', 'theories/Corr/CorrSelect.vo'],
     nontrivial=lambda i, o: len(i[2][1]) >= 2,
     rule='populations of 1..7 single-case individuals, with and without ties, both polarities; every tournament size k = 1..n with 20000 (quick) / 400000 (thorough) seeded draws of the real Tournament::select, frequencies per tie class against the law evaluated from the model definition (uniform k-subsets, best of the subset) - not from the closed form, which is the theorem; Best and Worst: membership in the maximal / minimal class. Non-trivial: at least two individuals.',
@@ -582,7 +595,7 @@ PROPS['C07'] = dict(_SEL_COMMON, post_batch=make_stat_post('C07', sel_obs_code),
     level_note='Trusted: Coq kernel; harness+driver; choose_multiple uniform over k-subsets (oracle).',
     technique='Coq counting proof (k-sublists, binomial CDF) over a distribution monad + exact support and statistical-law correspondence',
     design_ref='DESIGN.md §5 C07')
-PROPS['C08'] = dict(_SEL_COMMON, post_batch=make_stat_post('C08', sel_obs_code),
+PROPS['C08'] = dict(_SEL_COMMON, post_batch=make_stat_post('C08', sel_obs_code, sel_hist_of),
     coq_targets=['theories/Props/C08.vo', 'theories/Corr/CorrSelect.vo'],
     nontrivial=lambda i, o: len(i[2][1]) >= 2 and i[2][2][1] >= 1,
     rule='result matrices up to 6 individuals x 4 cases with ties and duplicated individuals, zero cases, single individual, both polarities (Score / Error), configured case count = and < the results available; exact law by enumerating all case orders in coqc (<= 24); 20000 (quick) / 400000 (thorough) seeded draws; support both ways (never a zero-probability winner; every individual with noticeable probability is seen) and per-individual frequencies. Non-trivial: >= 2 individuals and >= 1 case.',
@@ -591,10 +604,10 @@ PROPS['C08'] = dict(_SEL_COMMON, post_batch=make_stat_post('C08', sel_obs_code),
     level_note='Trusted: Coq kernel; harness+driver; shuffle uniform over permutations (oracle).',
     technique='Coq invariant proof (accompany lemma => non-dominance) over the filtering loop + exact law by permutation enumeration, statistical correspondence',
     design_ref='DESIGN.md §5 C08')
-PROPS['C13'] = dict(_SEL_COMMON, post_batch=make_stat_post('C13', sel_obs_code),
+PROPS['C13'] = dict(_SEL_COMMON, post_batch=make_stat_post('C13', sel_obs_code, sel_hist_of),
     coq_targets=['theories/Props/C13.vo', 'theories/Corr/CorrSelect.vo'],
     nontrivial=lambda i, o: True,
-    rule='marker members (best / worst / random over a fixed population) combined in left-nested chains (the with_item_and_weight idiom), right-nested chains, random trees (depth <= 3) and the dynamic list with the same weights; weights from {0,1,2,3,7} and the u32 boundaries {0, 1, 2^31, 2^32-2, 2^32-1}; delegation frequencies against w/total computed in coqc; build-time WeightSumOverflow compared exactly, including which pair is reported and overflow earlier in the chain.',
+    rule='marker members (best / worst / random over a fixed population), each wrapped in a probe that counts how often it is used (members under a weight of zero: never; every selection that is not a zero-weight error: exactly one member - judged in coqc by probes_ok), combined in left-nested chains (the with_item_and_weight idiom), right-nested chains, random trees (depth <= 3) and the dynamic list with the same weights; weights from {0,1,2,3,7} and the u32 boundaries {0, 1, 2^31, 2^32-2, 2^32-1}, plus large weights (2^29..2^31) whose totals are far from a power of two and the largest total that fits; delegation frequencies against w/total computed in coqc; build-time WeightSumOverflow compared exactly, including which pair is reported and overflow earlier in the chain.',
     assumptions=['Bernoulli::from_ratio realises wa/(wa+wb) on a 2^-64 grid - below any observable resolution'],
     level_text='Theorems (Props/C13.v): for EVERY tree shape of weighted pairs a leaf is delegated to with probability weight/total (so nesting and construction order do not matter), zero-weight members are never used, a structure of total weight zero reports ZeroWeight with certainty, the dynamic list picks entry i with probability w_i / sum, and a chain is rejected at build time exactly when some partial sum reaches 2^32 (also when the overflow happened earlier). Tied to the code by delegation frequencies and exact build-time errors.',
     level_note='Trusted: Coq kernel; harness+driver; Bernoulli / choose_weighted as oracles.',
@@ -635,7 +648,7 @@ PROPS['C11'] = dict(_MUT_COMMON, judge='(judge_cases judge_c11)',
 PROPS['C12'] = dict(_MUT_COMMON, judge='(judge_cases judge_c12)', post_batch=make_stat_post('C12', mut_code, mut_hist_of), cov_extra=stat_cov_extra,
     coq_targets=['theories/Props/C12.vo', 'theories/Corr/CorrMut.vo'],
     nontrivial=lambda i, o: True,
-    rule='FULL child distributions (every possible child is a cell): bit-flip at rates {1/16, 1/4, 1/2, 7/8} and 1/len for lengths 1..8 (Vec<bool> and Bitstring alternating); UMAD at (a,d) in {(1/8,1/8), (1/4,1/5), (1/2,1/4), (1,0), (0,1), (1/2,1/3)} on 0..3 tagged genes with a 2-gene alphabet and all empty-genome modes; uniform crossover for lengths 1..6; random bitstrings with p in {0, 1/8, 1/2, 7/8, 1}; Plushy gene generators over 1,2,3,5 instructions with the default (1/(n+1)) and explicit close probabilities; genomes of 65..257 genes (bit-flip, 1/length flip, uniform crossover in every argument form, random bitstrings) judged through pairs of positions - neighbours and 32/63/64/65/128/256 apart - against the pair marginals proved in C12_flip_marginals / C12_bitstring_pairs / C12_uniform_xo_pairs; genomes of 2^16+1 .. 2^18 genes with the per-gene flip frequency pooled over all genes of all children (1/length and fixed small rates); whole random Plushy genomes observed at their first, an inner and their last position (collection_marginal: every position follows the gene law). 20000 (quick) / 400000 (thorough) seeded draws per configuration, compared cell by cell with the law computed from the model in coqc (independence and the new-genes-are-deleted-too clause are consequences of the joint law).',
+    rule='FULL child distributions (every possible child is a cell): bit-flip at rates {1/16, 1/4, 1/2, 7/8} and 1/len for lengths 1..8 (Vec<bool> and Bitstring alternating); UMAD at (a,d) in {(1/8,1/8), (1/4,1/5), (1/2,1/4), (1,0), (0,1), (1/2,1/3)} on 0..3 tagged genes with a 2-gene alphabet and all empty-genome modes; uniform crossover for lengths 1..6; random bitstrings with p in {0, 1/8, 1/2, 7/8, 1}; Plushy gene generators over 1,2,3,5 instructions with the default (1/(n+1)) and explicit close probabilities, built through every constructor (into_ / to_gene_generator[_with_close_probability] on owned and borrowed instruction distributions, GeneGenerator::new and ::with_uniform_close_probability directly); genomes of 65..257 genes (bit-flip, 1/length flip, uniform crossover in every argument form, random bitstrings) judged through pairs of positions - neighbours and 32/63/64/65/128/256 apart - against the pair marginals proved in C12_flip_marginals / C12_bitstring_pairs / C12_uniform_xo_pairs; genomes of 2^16+1 .. 2^18 genes with the per-gene flip frequency pooled over all genes of all children (1/length and fixed small rates); whole random Plushy genomes observed at their first, an inner and their last position (collection_marginal: every position follows the gene law). 20000 (quick) / 400000 (thorough) seeded draws per configuration, compared cell by cell with the law computed from the model in coqc (independence and the new-genes-are-deleted-too clause are consequences of the joint law).',
     trusted=['rand primitives as oracles', 'statistical tie: Bernstein threshold with delta = 1e-12 per cell, one 10x re-sample before a cell counts; zero-probability children are an exact violation'],
     assumptions=['all rates are dyadic-representable or small rationals; f32/f64 granularity of the rates is far below the test resolution'],
     level_text='Theorems (Props/C12.v) in Q: the bit-flip child distribution is the product law r^h (1-r)^(n-h) (hence independent flips), r n expected flips and exactly one for the 1/length variant; UMAD expected child size n (1-d)(1+a) - new genes being deletable too - and size neutrality at d = a/(1+a); uniform crossover masks are uniform (each position 1/2, independently); random bitstrings follow the product Bernoulli law; a random Plushy gene is a close marker with probability c and otherwise drawn from the instruction distribution, and with the default c = 1/(n+1) all n+1 outcomes are equally likely. Tied to the code by comparing full empirical child distributions with the model law.',
@@ -669,7 +682,7 @@ PROPS['C18'] = dict(
     describe=c18_describe, no_shrink=True, nontrivial=lambda i, o: True,
     classify=lambda i, o: ('choice:%s' % C18_FL[i[2][1]]) if i[2][0] in (5, 6, 7) else ('collection:%s' % C18_K[i[2][0]]),
     bucket=lambda i, o: [('flavour=%s' % C18_FL[i[2][1]]) if i[2][0] in (5, 6, 7) else ('collection=%s' % C18_K[i[2][0]]), 'size=%d' % (len(i[2][2]) if i[2][0] == 5 else i[2][2] if i[2][0] in (6, 7) else i[2][1])],
-    rule='collection generators for Vec, Bitstring (both constructors), Plushy and a population of scored individuals at sizes 0, 1, 2, 17 and 1000 (length of every sample and membership of every element compared exactly); uniform choices built through all 15 conversion flavours (Vec / array / slice, owning / borrowing / cloning, IntoDistribution / ToDistribution, and the uniform_distribution_of! macro) from empty sources (EmptySlice expected) and from sources of 1..6 members incl. duplicates: num_choices compared exactly, members exactly (zero-probability values are violations), frequencies against 1/len per index; sources of 3*2^23, 2^25 and 2^24+1 members through the Vec and slice flavours, the chosen index judged by residue classes (mod 3, 2, 5) against the class law proved in C18_choice_uniform_classes; zero-sized elements (collections) and sources of 0, 1, 7, 2^32-1, 2^32, 2^32+1, 2^33 zero-sized members (num_choices exact, rejected only when empty); sources of 100, 192, 255, 257 members with 15x the draws; (thorough) 2^32+2 one-byte members.',
+    rule='collection generators for Vec, Bitstring (both constructors), Plushy and a population of scored individuals at sizes 0, 1, 2, 17, 1000 and around block boundaries (255..257, 1023..1025, 2048, 3072, 4096, 65536) (length of every sample and membership of every element compared exactly); uniform choices built through all 15 conversion flavours (Vec / array / slice, owning / borrowing / cloning, IntoDistribution / ToDistribution, and the uniform_distribution_of! macro) from empty sources (EmptySlice expected) and from sources of 1..6 members incl. duplicates: num_choices (asked directly and through the &T / &mut T forwarding impls, generically and as a trait object) compared exactly, members exactly (zero-probability values are violations), frequencies against 1/len per index; sources of 3*2^23, 2^25 and 2^24+1 members through the Vec and slice flavours, the chosen index judged by residue classes (mod 3, 2, 5) against the class law proved in C18_choice_uniform_classes; zero-sized elements (collections) and sources of 0, 1, 7, 2^32-1, 2^32, 2^32+1, 2^33 zero-sized members (num_choices exact, rejected only when empty); sources of 100, 192, 255, 257 members with 15x the draws; (thorough) 2^32+2 one-byte members.',
     trusted=['rand Uniform / slice::Choose as oracles', 'statistical tie with delta = 1e-12 per cell'],
     assumptions=[],
     level_text='Theorems (Props/C18.v): a collection generator yields exactly n elements each drawn from the element generator (and is total); a uniform choice returns only indices of the source, each with probability exactly 1/length (duplicates handled by index), and an empty source is rejected at construction. The elements of a collection are independent draws (product law); the uniform law seen through residue classes of the index (for sources of millions of members). Tied to the code by exact length / membership / num_choices checks for every conversion flavour and by seeded frequencies.',
@@ -709,10 +722,17 @@ C16_OPS = ['Best', 'Worst', 'Random', 'Tournament(2)', 'Lexicase(2)', 'WeightedP
            'Tournament(2) on 8..47 individuals with many ties', 'Tournament(3) on 8..47 individuals with many ties', 'Lexicase(2) on 8..47 individuals with many ties',
            'Best on 8..47 individuals with many ties', 'DynWeighted[Tournament(2):2, Worst:1] on 8..47 individuals with many ties',
            'TwoPointXo [Vec;2], equal parents with exact / spare capacity', 'TwoPointXo (Vec,Vec), equal parents with exact / spare capacity', 'UniformXo [Vec;2], equal parents with exact / spare capacity',
-           'WithOneOverLength Vec<bool> of 1..2 genes with exact / spare capacity', 'WithRate Vec<bool> with exact / spare capacity']
+           'WithOneOverLength Vec<bool> of 1..2 genes with exact / spare capacity', 'WithRate Vec<bool> with exact / spare capacity',
+           'Umad::new_with_empty_rate(0.25, 0.95, ..) Bitstring, empty and non-empty genomes in turn (used value met them in the opposite order)',
+           'Umad::new_with_empty_rate(0.9, 0.1, ..) Vector, empty and non-empty genomes in turn (used value met them in the opposite order)',
+           'DynWeighted[Best:1, Worst:2, Random:3] built in one go vs used between its builder calls', 'DynWeighted[Best:0, Worst:2, Random:3] built in one go vs used between its builder calls']
 def c16_describe(inp, obs):
     if inp[0] == 0:
         return '%s, seed %d, data %s; observed [run from a fresh value, run from another fresh value, run from an already-used value], each [[3 results], next generator word]' % (C16_OPS[inp[1]], inp[2], inp[3])
+    if inp[0] == 3:
+        return 'two distinct input names that collide under a common short hash (pair %d of the table in harness/src/c16.rs) bound to 11 and 22 and read in that order, declared in either order; observed per order: the int stack, top first' % inp[1]
+    if inp[0] == 2:
+        return 'a program reading %d distinctly named inputs (in0.., input i = 7i+1) once each, declared forwards / backwards / shuffled; observed per declaration order [int stack size, hash of the int stack]' % inp[1]
     return push_describe([0, inp[1], inp[2], []], obs) + ' -- run under every permutation of the %d input declarations; observed [class, state, errkind, all runs equal]' % inp[3]
 def c16_case_of(inp, obs):
     return [inp, obs]
@@ -729,9 +749,9 @@ PROPS['C16'] = dict(
     corr='CorrC16', judge='(judge_cases judge)', post_batch=c16_post_batch,
     coq_targets=['theories/Props/C16.vo', 'theories/Corr/CorrC16.vo'],
     describe=c16_describe, no_shrink=True, nontrivial=lambda i, o: True,
-    classify=lambda i, o: ('op:%s' % C16_OPS[i[1]]) if i[0] == 0 else 'push-input-order',
-    bucket=lambda i, o: [('op=%s' % C16_OPS[i[1]]) if i[0] == 0 else 'push permutations=%d' % i[3]],
-    rule='36 selectors, mutators, recombinators, generators and compositions (selectors also on populations of 8..47 distinct individuals with many ties - where hash order or a cache could decide; vector genomes that are equal as values but differ in spare capacity) exported by the three crates (table in harness/src/c16.rs) x 12 (quick) / 200 (thorough) seeds: a counting loop evaluated for 1.2 million steps (about a second of wall-clock time) must equal the model run; three consecutive calls from (A) a fresh operator value, (B) another fresh value with a generator cloned from the same seed, (C) a value that was already used five times with another generator - results and the next word of the generator must all coincide (a consult of the thread RNG, global state, or a cache inside the operator shows up as a difference); one entry interleaves two operators on one generator. Push: 80 (quick) / 600 (thorough) random nested programs with 2-3 bound inputs, evaluated under EVERY permutation of the input declarations and twice from each built state: all runs must coincide and equal the model run (stacks, output bytes, outcome).',
+    classify=lambda i, o: ('op:%s' % C16_OPS[i[1]]) if i[0] == 0 else ('push-input-order' if i[0] == 1 else 'push-many-names' if i[0] == 2 else 'push-colliding-names'),
+    bucket=lambda i, o: [('op=%s' % C16_OPS[i[1]]) if i[0] == 0 else ('push permutations=%d' % i[3] if i[0] == 1 else 'push inputs=%d' % i[1] if i[0] == 2 else 'push colliding names')],
+    rule='40 selectors, mutators, recombinators, generators and compositions (selectors also on populations of 8..47 distinct individuals with many ties - where hash order or a cache could decide; vector genomes that are equal as values but differ in spare capacity) exported by the three crates (table in harness/src/c16.rs) x 12 (quick) / 200 (thorough) seeds: a counting loop evaluated for 1.2 million steps (about a second of wall-clock time) must equal the model run; three consecutive calls from (A) a fresh operator value, (B) another fresh value with a generator cloned from the same seed, (C) a value that was already used five times with another generator - results and the next word of the generator must all coincide (a consult of the thread RNG, global state, or a cache inside the operator shows up as a difference); one entry interleaves two operators on one generator; four entries give the used value a PAST of other kinds of calls (UMAD with distinct empty-genome rate on empty / non-empty genomes in the opposite order; a dynamic weighted selector that was used between its builder calls, also with a zero first weight). Push: programs reading 1, 3, 1000 and 3000 (thorough: 20000) distinctly named inputs, declared forwards, backwards and shuffled, against the closed-form result (length and hash of the int stack); 15 pairs of distinct names that collide under common short hash functions (FNV-1a 32, CRC-32, Java hashCode, djb2) or differ only in case / spacing / Unicode normalisation, bound to different values and declared in either order; 80 (quick) / 600 (thorough) random nested programs with 2-3 bound inputs, evaluated under EVERY permutation of the input declarations and twice from each built state: all runs must coincide and equal the model run (stacks, output bytes, outcome).',
     trusted=['that equal observable results and an equal next word mean equal generator states (SplitMix64 state = one word)'],
     assumptions=['"the code is a function of its arguments" is decided code-against-code: a Gallina model is deterministic by construction and cannot carry that claim'],
     level_text='Theorems (Props/C16.v): named inputs resolve independently of declaration order (lookup is invariant under permutation of a duplicate-free list) and therefore the whole evaluation of any program is - same stacks, output, limits, outcome, step count; combinators have no hidden state (the threaded state after a composition is what its parts left). Stream locality: an operator that uses only the generator it is handed depends only on the consumed stretch of the stream; drawing is local and every combinator preserves locality, so equal generator states give equal results and equal positions for every composition (C16_combinators_preserve_locality, C16_equal_generator_states_equal_results). The remaining half - no randomness or state other than the generator handed in - is decided by double runs from cloned generators on fresh and on used operator values, and by permuting input declarations.',
@@ -767,6 +787,44 @@ def c19_gen_extra(tier, seed):
         raw = [c19gen.rand_call(rng, stacks) for _ in range(rng.randint(1, 5))]
         if rng.random() < 0.5: raw.append([7])
         add(sid, 3, raw)
+    # a fixed set run every time: each rule of the type-state in isolation, for the exec stack and for every value
+    # stack of both structs (a size change after a load with NOTHING else loaded, after a program, after the
+    # decision for no program; each required step left out), next to their well-typed neighbours
+    for sid, spec in ((0, c19gen.PUSHSTATE), (1, c19gen.MINI)):
+        stacks = sorted(spec['stacks'])
+        tail = [[6, 10], [7]]
+        fixed = [
+            [[0, 5], [3, [101, 102]], [0, 7]] + tail,
+            [[0, 5], [3, []], [0, 7]] + tail,
+            [[0, 5], [4], [0, 7]] + tail,
+            [[0, 5], [4]] + tail,
+            [[0, 5], [3, [101]]] + tail,
+            [[4]] + tail,
+            [[0, 5]] + tail,
+            [[0, 5], [4], [7]],
+            [[0, 5], [4], [6, 10]],
+            [[0, 5], [4], [4]] + tail,
+            [[0, 5], [3, [101]], [4]] + tail,
+        ]
+        for k in stacks:
+            other = [j for j in stacks if j != k][0]
+            fixed += [
+                [[0, 5], [2, k, [1]], [1, k, 9], [4]] + tail,
+                [[0, 5], [2, k, [1]], [0, 9], [4]] + tail,
+                [[0, 5], [2, k, []], [1, k, 9], [4]] + tail,
+                [[0, 5], [2, k, [1]], [1, other, 9], [4]] + tail,
+                [[0, 5], [3, [101]], [1, k, 9]] + tail,
+                [[0, 5], [4], [1, k, 9]] + tail,
+                [[1, k, 3], [2, k, [1]], [0, 5], [4]] + tail,
+                [[1, k, 3], [0, 5], [2, k, [1]], [4]] + tail,
+                [[2, k, [1]], [0, 5], [4]] + tail,
+            ]
+        for cs in fixed:
+            add(sid, 3, cs)
+            # ... and cut off right after the call in question (typed sequences are prefix closed): a call that is
+            # wrongly offered must not hide behind a later step that no longer type-checks because of it
+            if cs[-2:] == tail:
+                add(sid, 3, cs[:-2])
     # the probe input handed to Coq is [1, nstacks, cs]; the struct id rides along as a 4th element for the emitter
     return out
 
@@ -878,7 +936,7 @@ PROPS['C19'] = dict(
     bucket=lambda i, o: ['kind=%s' % ('compile-probe' if i[0] == 1 else 'run'), 'struct=%s' % ('PushState' if (i[3] if i[0] == 1 else i[1]) == 0 else 'Mini'),
                          'outcome=%s' % (o if i[0] == 1 else ('overflow' if o == [1] else 'built'))],
     cov_extra=lambda inputs, obs, verdicts: dict(compile_probes=C19_PROBE['n'], rustc_error_codes=C19_PROBE['codes']),
-    rule='(run) 200 compiled-in well-typed builder call sequences - 140 on PushState, 60 on a second struct the macro is applied to in the harness (other field names, builder_name / instruction_name options, two value stacks) - with per-stack and global sizes in every legal order, repeated value loads, programs, inputs declared in various orders and re-declared, step limits: stack contents (top first), maximum sizes, step limit, the program order on the exec stack and the resolution of every declared input are compared with Builder.brun in coqc, as is the overflow error; the derived accessors are exercised on PushState through HasStack. (compile) 25 (quick) / 150 (thorough) well-typed sequences plus their ill-typed neighbours (each required step omitted, a resize after a load, values before any size, a second program decision, a global size after data, no build) and raw random sequences, each compiled as its own binary against the current tree with cargo check: rustc accepts it <=> Builder.typed.',
+    rule='(run) 200 compiled-in well-typed builder call sequences - 140 on PushState, 60 on a second struct the macro is applied to in the harness (other field names, builder_name / instruction_name options, two value stacks) - with per-stack and global sizes in every legal order, repeated value loads, programs, inputs declared in various orders and re-declared, step limits: stack contents (top first), maximum sizes, step limit, the program order on the exec stack and the resolution of every declared input are compared with Builder.brun in coqc, as is the overflow error; the derived accessors are exercised on PushState through HasStack. (compile) a fixed set of about 130 sequences (each also cut off right after the call in question) isolating each rule of the type-state (a size change after a load with nothing else loaded - for the exec stack after a program / after the decision for no program, for every value stack after values -, each required step left out, a second program decision) next to their well-typed neighbours, plus 25 (quick) / 150 (thorough) random well-typed sequences and their ill-typed neighbours (each required step omitted, a resize after a load, values before any size, a second program decision, a global size after data, no build) and raw random sequences, each compiled as its own binary against the current tree with cargo check: rustc accepts it <=> Builder.typed.',
     trusted=['rustc / cargo check as the oracle of what compiles (differential compile probes)', 'the sequence generators and Rust emitters (driver/c19gen.py, harness/gen/gen_c19.py)'],
     assumptions=['derived HasStack accessors are exercised on PushState only (they do not compile downstream for >= 2 stacks: observation O1 in DESIGN)', 'the macro attribute parser is not modelled'],
     level_text='Theorems (Props/C19.v): the type-state machine transcribed from the generated trait bounds admits a build only after the global stack size, a program decision and a step limit; after values were loaded into a stack neither its own nor the global size can be set; typed sequences are prefix closed. Built state: loading puts the first supplied value on top and stacks up over repeated loads, more values / program elements than the maximum is an overflow and nothing is built, the program\'s first element is on top of exec, the maximum last set (globally or individually) wins, named inputs resolve to their last declaration independently of declaration order. Every state a well-typed sequence builds has every stack within its maximum (C19_built_state_within_maxima). Tied to the code by compiled-in call sequences on two macro-generated structs and by differential compile probes (compiles <=> typed).',
